@@ -76,13 +76,22 @@ impl<'a> RegExp<'a> {
             .iter()
             .map(|it| {
                 let lower_test_case = it.to_lowercase();
-                if lower_test_case.chars().count() == it.chars().count() {
+                if lower_test_case.chars().count() == it.chars().count()
+                    && Self::is_matched_case_insensitively(&lower_test_case, it)
+                {
                     lower_test_case
                 } else {
                     it.to_string()
                 }
             })
             .collect_vec();
+    }
+
+    fn is_matched_case_insensitively(lower_test_case: &str, test_case: &str) -> bool {
+        // The case folding rules of the regex engine may lag behind those of the standard library.
+        lower_test_case == test_case
+            || Regex::new(&format!("(?i)^{}$", regex::escape(lower_test_case)))
+                .is_ok_and(|regex| regex.is_match(test_case))
     }
 
     fn convert_expr_to_regex(expr: &Expression, config: &RegExpConfig) -> Regex {
